@@ -544,6 +544,17 @@ def run(ctx, col: Collector):
                 n += 1
                 col.obs.append(type(o)(col.prop, 'C14-inert', 'reference-equality:' + o.construct, o.status, o.msg, o.file, o.line, o.extra))
         col.floor('C14-inert', 'reference equality obligations', n, 1)
+        # the collected blueprints are dataclasses whose generated equality includes the `comment` field: a declaration that is kept or dropped by comparing
+        # blueprints depends on the comments attached to it (rule shared with C01-wiring: every matched element is stored unconditionally)
+        sub = ctx.sub('c01', col.prop)
+        m = 0
+        for o in sub.obs:
+            if o.rule == 'C01-wiring' and ':stores-unconditionally:' in o.construct:
+                m += 1
+                col.obs.append(type(o)(col.prop, 'C14-inert', 'collect:' + o.construct, o.status,
+                                       o.msg + (' (the blueprint comparison includes the comment field, so a comment decides whether the declaration is kept)' if o.status == 'refuted' else ''),
+                                       o.file, o.line, o.extra))
+        col.floor('C14-inert', 'collection obligations', m, 4)
     guarded(col, 'C14-inert', 'equality', inert_equality)
 
 
